@@ -128,7 +128,18 @@ get_type_blob (GITypelib *typelib,
       return FALSE;
     }
 
-  return (InterfaceTypeBlob*) get_blob (typelib, simple->offset, error);
+  /* the smallest type blob (InterfaceTypeBlob) is shorter than a CommonBlob:
+   * it may be the last thing in the file */
+  if (typelib->len < simple->offset + sizeof (InterfaceTypeBlob))
+    {
+      g_set_error (error,
+		   G_TYPELIB_ERROR,
+		   G_TYPELIB_ERROR_INVALID,
+		   "The buffer is too short");
+      return FALSE;
+    }
+
+  return (InterfaceTypeBlob*) &typelib->data[simple->offset];
 }
 
 /**
